@@ -84,6 +84,7 @@ fn main() {
         "pg" => pg::run(&args),
         "pg_race" => pg::race(&args),
         "decode_drop" => decode::run(&args),
+        "job_meta" => decode::job_meta(&args),
         "derive_decode" => derive::decode(&args),
         "derive_roundtrip" => derive::roundtrip(&args),
         "rpc" => rpc::run(&args),
